@@ -7,7 +7,13 @@
 #define RLBOX_SINGLE_THREADED_INVOCATIONS
 #define RLBOX_USE_STATIC_CALLS() life_static_lookup
 #include "rlbox.hpp"
-#ifdef LIFE_NOOP
+#ifdef LIFE_DYLIB
+// the other shipped back end: everything as for LIFE_NOOP (which this define implies), the sandbox type is
+// rlbox_dylib_sandbox bound to libc.so.6 (never called into: the guest functions of this driver are looked up statically)
+#  define LIFE_NOOP
+#  include "rlbox_dylib_sandbox.hpp"
+using Sbx = rlbox::rlbox_dylib_sandbox;
+#elif defined(LIFE_NOOP)
 #  include "rlbox_noop_sandbox.hpp"
 using Sbx = rlbox::rlbox_noop_sandbox;
 #else
@@ -68,7 +74,16 @@ static void fill_from(sandbox_t& s, std::vector<owner_t>& v, int n)
 // guest side: call through an entry point
 #ifdef LIFE_NOOP
 void callcb(void (*)());
-static void guest_callcb(void (*cb)()) { cb(); }
+static void (*g_in_guest)() = nullptr;     // multi-threaded use: lets other threads run while this one is inside the sandbox
+static void guest_callcb(void (*cb)()) { if (g_in_guest) g_in_guest(); cb(); }
+#  ifdef RLBOX_EMBEDDER_PROVIDES_TLS_STATIC_VARIABLES
+// the embedder-provided thread-local-storage configuration of the shipped back ends
+#    ifdef LIFE_DYLIB
+RLBOX_DYLIB_SANDBOX_STATIC_VARIABLES();
+#    else
+RLBOX_NOOP_SANDBOX_STATIC_VARIABLES();
+#    endif
+#  endif
 #else
 void callcb(void (*)());
 static void guest_callcb(Sbx::T_PointerType cb) { Sbx::guest_call_callback<void>(cb); }
@@ -102,7 +117,9 @@ static std::string run_case(const toks_t& t)
         if (c == "c") {
           int i = std::stoi(o[1]);
           bool ok = o[2] == "1";
-#ifdef LIFE_NOOP
+#ifdef LIFE_DYLIB
+          bool r = sb[i]->create_sandbox("libc.so.6");
+#elif defined(LIFE_NOOP)
           bool r = sb[i]->create_sandbox();
 #else
 #  ifdef LIFE_NO_FIXED_BASE
